@@ -229,17 +229,69 @@ Example dedup_ex :
 Proof. vm_compute. reflexivity. Qed.
 
 (* ---------------------------------------------------------------------------------------------- *)
-(* (6) table_roundtrip_partial.
-   FULL STATEMENT: reading back the written section gives the CIEs/FDEs of the table (parameters,
-   ranges, personality, LSDA, encodings) and each FDE's unwind rows are those of the CIE's initial
-   instructions followed by the FDE's instructions at their code offsets.
-   PROVED HERE: the section is the plan-ordered sequence of tiles (5); every tile is an entry
-   (initial length ++ header ++ area) whose instruction area decodes to exactly the CIE's initial
-   instructions, resp. to the FDE's instructions at their code offsets, followed by nop padding only.
-   Since unwind rows are a function of those two decoded programs, equal programs give equal rows.
-   MISSING (correspondence only: oracle stream c14.rows through gimli's own reader): read-back of the
-   header fields (version, factors, return register, augmentation string/data, pointer encodings,
-   address range) — that needs the CIE/FDE parser model of C05 (CfiRd), which lives on another branch. *)
+(* (6) table_roundtrip — reading the written section back, against the header-parser spec of
+   CfaEncSpec (parse_cie_body / parse_fde_body: CIE id, version, augmentation string, address size,
+   factors, return register, z-augmentation data with L/P/R/S; FDE CIE pointer, pointer-encoded address
+   and range, LSDA) and the instruction decoder:
+   the section is the plan-ordered sequence of tiles (5); every CIE tile parses to exactly the CIE's
+   parameters (personality reduced to the address size, absolute or pc-relative) and its instruction
+   area decodes to the initial instructions plus nop padding; every FDE tile parses to the offset of
+   its CIE's tile, its address range and LSDA, and its instruction area decodes to the supplied
+   instructions at their code offsets plus nop padding.
+   Hypotheses: operand typing, address sizes 1/2/4/8, the LSDA of an FDE present exactly when its CIE
+   has an lsda_encoding (lsda_ok; violated = known finding c14.f_lsda), section below 2^64.
+   NOT part of the theorem: the evaluated unwind rows themselves — they are the image of the two decoded
+   programs under the CFA machine, whose model (CfiRun, C06) and the reader's own parser model (CfiRd,
+   C05) live on other branches; on the implementation the rows are compared by the oracle stream c14.rows. *)
+Theorem pointer_read_back : forall (be : bool) (pos a enc asz : N) bs rest,
+  a < 18446744073709551616 -> pos < 18446744073709551616 ->
+  (asz = 1 \/ asz = 2 \/ asz = 4 \/ asz = 8) ->
+  write_eh_pointer be pos (AConst a) enc asz = Ok bs ->
+  pe_pointer be asz enc pos (bs ++ rest) = Some (a mod 2 ^ (8 * asz), rest).
+Proof. exact write_eh_pointer_reads. Qed.
+
+Theorem cie_header_read : forall (dbg be eh : bool) (pos : N) (c : cie) bs,
+  cie_wf c = true ->
+  (c_asize c = 1 \/ c_asize c = 2 \/ c_asize c = 4 \/ c_asize c = 8) ->
+  pos + len bs < 18446744073709551616 ->
+  cie_write dbg be eh pos c = Ok bs ->
+  exists il body insns pad,
+    bs = il ++ body /\ len il = ilen_size (c_fmt64 c) /\
+    write_initial_length (c_fmt64 c) be (len body) = Ok il /\
+    write_insns dbg (c_daf c) (c_insns c) = Ok insns /\ all_nop pad = true /\ len pad < c_asize c /\
+    parse_cie_body be eh (c_fmt64 c) (c_asize c) (pos + ilen_size (c_fmt64 c)) body
+      = Some (cie_fields_of c, insns ++ pad).
+Proof. exact cie_header_reads. Qed.
+
+Theorem fde_header_read : forall (dbg be eh : bool) (pos coff : N) (c : cie) (f : fde) bs,
+  cie_wf c = true -> fde_wf f = true ->
+  (c_asize c = 1 \/ c_asize c = 2 \/ c_asize c = 4 \/ c_asize c = 8) ->
+  pos + len bs < 18446744073709551616 -> coff <= pos ->
+  lsda_ok c f = true ->
+  fde_write dbg be eh pos coff c f = Ok bs ->
+  exists il body insns pad,
+    bs = il ++ body /\ len il = ilen_size (c_fmt64 c) /\
+    write_initial_length (c_fmt64 c) be (len body) = Ok il /\
+    write_fde_insns dbg be (c_caf c) (c_daf c) 0 (f_insns f) = Ok insns /\ all_nop pad = true /\ len pad < c_asize c /\
+    parse_fde_body be eh (c_fmt64 c) (c_asize c) (cf_fde_enc (cie_fields_of c)) (c_lsda_enc c) (has_augmentation c)
+                   (pos + ilen_size (c_fmt64 c)) body
+      = Some (fde_fields_of c f coff, insns ++ pad).
+Proof. exact fde_header_reads. Qed.
+
+Theorem table_roundtrip : forall (dbg be eh : bool) (pos : N) (t : ftable) bs,
+  Forall (fun c => cie_wf c = true /\ asz_ok (c_asize c)) (t_cies t) ->
+  Forall (fun p => fde_wf (snd p) = true /\
+                   forall c, nth_error (t_cies t) (fst p) = Some c -> lsda_ok c (snd p) = true) (t_fdes t) ->
+  pos + len bs < 18446744073709551616 ->
+  write_table dbg be eh pos t = Ok bs ->
+  exists chunks,
+    map fst chunks = plan [] 0 (map fst (t_fdes t)) /\
+    bs = concat (map snd chunks) /\
+    reads_back be eh (t_cies t) (t_fdes t) pos [] chunks.
+Proof. exact table_roundtrip_pack. Qed.
+
+(* the weaker form without the header hypotheses (any power-of-two address size, no LSDA condition):
+   tiles in plan order whose instruction areas decode to the supplied programs *)
 Theorem table_roundtrip_partial : forall (dbg be eh : bool) (pos : N) (t : ftable) bs,
   Forall (fun c => cie_wf c = true /\ is_pow2 (c_asize c) = true) (t_cies t) ->
   Forall (fun p => fde_wf (snd p) = true) (t_fdes t) ->
@@ -250,6 +302,19 @@ Theorem table_roundtrip_partial : forall (dbg be eh : bool) (pos : N) (t : ftabl
     well_tiled dbg be eh (t_cies t) (t_fdes t) pos [] chunks /\
     Forall (tile_reads_back be (t_cies t) (t_fdes t)) chunks.
 Proof. exact table_roundtrip_partial_pack. Qed.
+
+Example pointer_ex :
+  write_eh_pointer false 100 (AConst 40) 27 8 = Ok [xc4; xff; xff; xff]
+  /\ pe_pointer false 8 27 100 [xc4; xff; xff; xff; x55] = Some (40, [x55]).
+Proof. vm_compute. split; reflexivity. Qed.
+
+Example cie_header_ex :
+  parse_cie_body false true false 8 4
+    [x00; x00; x00; x00; x01; x7a; x4c; x50; x52; x53; x00; x01; x78; x10; x07; x1b; x1b;
+     x1f; x12; x00; x00; x1b; x0c; x07; x08; x90; x01; x00]
+  = Some (cie_fields_of cie_ex, [x0c; x07; x08; x90; x01; x00])
+  /\ cie_fields_of cie_ex = mkFields 1 [x7a; x4c; x50; x52; x53] None 1 (-8) 16 (Some 27) (Some (27, 4660)) (Some 27) true.
+Proof. vm_compute. split; reflexivity. Qed.
 
 Definition table_ex : ftable := mkTable [cie_a; cie_b] [(0%nat, fde_a 4096); (1%nat, fde_a 8192); (0%nat, fde_a 12288)].
 Example table_hyps_ex :
@@ -262,6 +327,17 @@ Proof.
   split; [repeat constructor|]. split.
   - repeat constructor; eexists; (split; [reflexivity|intros _; reflexivity]).
   - eexists. split; [vm_compute; reflexivity|reflexivity].
+Qed.
+Example table_roundtrip_hyps_ex :
+  Forall (fun c => cie_wf c = true /\ asz_ok (c_asize c)) (t_cies table_ex) /\
+  Forall (fun p => fde_wf (snd p) = true /\
+                   forall c, nth_error (t_cies table_ex) (fst p) = Some c -> lsda_ok c (snd p) = true) (t_fdes table_ex).
+Proof.
+  assert (A4 : asz_ok 4) by (right; right; left; reflexivity).
+  split.
+  - constructor; [split; [reflexivity|exact A4]|]. constructor; [split; [reflexivity|exact A4]|constructor].
+  - constructor; [|constructor; [|constructor; [|constructor]]];
+      (split; [reflexivity|intros c H; cbn in H; injection H as <-; reflexivity]).
 Qed.
 
 (* ---------------------------------------------------------------------------------------------- *)
@@ -299,4 +375,5 @@ Check factoring_exact. Check factoring_exact_code. Check advance_loc_forms. Chec
 Check insn_write_read. Check fde_program_read. Check cie_program_read.
 Check entry_layout_cie. Check entry_layout_fde. Check entry_layout_dwarf64. Check entry_layout_refuted.
 Check cie_eqb_eq. Check cie_dedup_ids. Check cie_dedup_emission. Check plan_spec.
+Check pointer_read_back. Check cie_header_read. Check fde_header_read. Check table_roundtrip.
 Check table_roundtrip_partial. Check no_panic_write. Check no_panic_build.
